@@ -427,6 +427,19 @@ open_("F-C07-spill-cycle-first-evaluation", "C07",
       {"nsheets": 1, "cells": [[0, 1, 3, "=-NOT(C6)"], [0, 6, 2, "=A1:B2*2"], [0, 2, 1, "=SUM(SEQUENCE(3))+C1:C2"]], "perm": [2, 1, 0]},
       sigs=["route-differs|evaluated-twice|arrays"])
 
+# ---------------------------------------------------------------- C18
+fixed("FX-C18-localized-boolean", "C18", "c32ab20",
+      "in a German model TRUE is shown as WAHR, and typing WAHR back produced text",
+      {"language": "de", "locale": "en", "input": "TRUE", "format": None})
+open_("F-C18-date-format-content", "C18",
+      "the content shown for a number in a date/time formatted cell is the formatted date: typing it back loses the time fraction (1234.5 -> 1903-05-18 -> 1234), cannot be read at all for times (0:00 becomes text) and changes the format for numbers outside the date range",
+      {"language": "en", "locale": "en", "input": "1234.5", "format": "yyyy-mm-dd"},
+      patterns=[{"check": "re-entry", "keys": ["number-like:date-format"], "cats": ["*"]}])
+open_("F-C18-scientific-content-sets-format", "C18",
+      "a small or large number in a General cell is shown in scientific notation (0.000001234 -> 1.234e-6), and typing that back sets the 0.00E+00 format on the cell",
+      {"language": "en", "locale": "en", "input": "0.000001234", "format": None},
+      patterns=[{"check": "re-entry", "keys": ["number-like:other-format"], "cats": ["style"]}])
+
 def main():
     os.makedirs(os.path.join(HERE, "findings"), exist_ok=True)
     out = []
